@@ -7,6 +7,7 @@
   same … Equivalent spellings of an invocation have identical output, exit status and effect".
 -/
 import YashModel.Args.GetoptsLemmas
+import YashModel.Args.GetoptsHistoryLemmas
 namespace YashModel.Args.Getopts
 
 /-- ★ For every optstring (known letters, letters with `:`, leading `:`, unknown letters, `:` and `-`
@@ -27,6 +28,43 @@ theorem getopts_loop_is_structural_walk (spec : Str) (args : List Str) :
     obsOf args (walkAll spec args) = ((W spec (isColon spec) args).1, some (W spec (isColon spec) args).2) :=
   walkAll_eq_W spec args
 
+/-! ## several sessions in one shell (getopts.rs `main`, verify.rs) -/
+
+/-- ★ Whatever happened before in the shell — any remembered getopts state (other arguments, other
+    `Origin`, any position), any values of the option variable and `$OPTARG`, any positional
+    parameters — a session that starts with `OPTIND=1` and is run to completion is observed exactly
+    like the same session in a fresh shell: the same (variable, `$OPTARG`, `$OPTIND`, diagnostic) per
+    call, the same final status and the same final values.  For every spelling, optstring and vector. -/
+theorem getopts_reset_restarts (env : GEnv) (sp : Spelling) (spec : Str) (vec : List Str) (h : WellFormed sp vec) :
+    (runSession { env with optind := ['1'] } sp spec vec none).1 = freshObs sp spec vec :=
+  runSession_reset { env with optind := ['1'] } rfl sp spec vec h
+
+/-- ★ `getopts spec v` (positional parameters), `getopts spec v "$@"` and `getopts spec v args…` are
+    indistinguishable: in a fresh shell, hence by `getopts_reset_restarts` after any history that ends
+    with `OPTIND=1`. -/
+theorem getopts_spelling_invariant (env : GEnv) (sp sp' : Spelling) (spec : Str) (vec : List Str)
+    (h : WellFormed sp vec) (h' : WellFormed sp' vec) :
+    (runSession { env with optind := ['1'] } sp spec vec none).1 =
+      (runSession { env with optind := ['1'] } sp' spec vec none).1 := by
+  rw [getopts_reset_restarts env sp spec vec h, getopts_reset_restarts env sp' spec vec h',
+    freshObs_spelling sp spec vec h, freshObs_spelling sp' spec vec h']
+
+/-- ☆ a whole history of complete sessions, each preceded by `OPTIND=1`, from any environment: every
+    session is observed as in a fresh shell with the implicit spelling -/
+theorem getopts_history_of_resets (sessions : List (Spelling × Str × List Str))
+    (hw : ∀ s ∈ sessions, WellFormed s.1 s.2.2) (env : GEnv) :
+    runHistory env (sessions.flatMap fun s => [.assign ['1'], .session s.1 s.2.1 s.2.2 none]) =
+      sessions.flatMap fun s => [none, some (freshObs .implicit s.2.1 s.2.2)] := by
+  induction sessions generalizing env with
+  | nil => rfl
+  | cons s rest ih =>
+    have hs := hw s (by simp)
+    have ih' := fun env => ih (fun t ht => hw t (by simp [ht])) env
+    simp only [List.flatMap_cons, List.cons_append, List.nil_append, runHistory]
+    rw [ih']
+    have := getopts_reset_restarts env s.1 s.2.1 s.2.2 hs
+    rw [this, freshObs_spelling s.1 s.2.1 s.2.2 hs]
+
 /-! ## non-vacuity -/
 
 /-- optstring `ab:` — `-axb Y Z`: `a`, unknown `x` (diagnostic), `b` with argument `Y`; operand `Z` -/
@@ -46,5 +84,19 @@ example : separate ['a','b',':'] [['-','a','b','X'], ['-','-'], ['-','a']] = [['
 example : separate ['a'] [['-','a','-']] = [['-','a','-']] := rfl
 example : obsOf [['-','a','b','X'], ['-','-'], ['-','a']] (walkAll ['a','b',':'] [['-','a','b','X'], ['-','-'], ['-','a']]) =
     ([('a', none, false), ('b', some ['X'], false)], some [['-','a']]) := by decide
+
+/-- a session with positional parameters, then `OPTIND=1`, then the same vector written literally -/
+example : runHistory freshEnv [.session .implicit ['a','b'] [['-','a','b']] none, .assign ['1'],
+      .session .literal ['a','b'] [['-','a','b']] none] =
+    [some (freshObs .implicit ['a','b'] [['-','a','b']]), none, some (freshObs .implicit ['a','b'] [['-','a','b']])] := by
+  decide
+example : (freshObs .implicit ['a','b'] [['-','a','b']]).calls =
+    [⟨'a', none, ['1',':','2'], false⟩, ⟨'b', none, ['2'], false⟩] := by decide
+/-- the documented misuse: no reset between two sessions -> the second is refused (status 2) -/
+example : (runHistory freshEnv [.session .literal ['a','b'] [['-','a']] none,
+      .session .literal ['a','b'] [['-','b']] none]).map (·.map (·.fin)) = [some (some 1), some (some 2)] := by decide
+/-- garbage in `$OPTIND` with no remembered state is refused as well -/
+example : (runHistory freshEnv [.assign ['x'], .session .implicit ['a'] [['-','a']] none]).map (·.map (·.fin)) =
+    [none, some (some 2)] := by decide
 
 end YashModel.Args.Getopts
